@@ -50,6 +50,46 @@ fn limit_case(ctx: &mut Ctx, n: u32, depth: usize) {
     }
 }
 
+/// `comp (… (comp iden iden) …) iden : A → A` over the word type of 2^n bits, `depth` comps: source,
+/// target and extra cells are each within the limit while their sum may not be (the buffer that
+/// `for_program` allocates has source + target + extra cells)
+fn near_limit_case(ctx: &mut Ctx, n: usize, depth: usize) {
+    use simplicity::node::CoreConstructible;
+    use simplicity::types::{Context, Type};
+    let line = format!("nearlimit {n} {depth}");
+    let res = catch(|| {
+        let red = Context::with_context(|tc| {
+            let iden = std::sync::Arc::<simplicity::ConstructNode>::iden(&tc);
+            let a = Type::two_two_n(&tc, n);
+            tc.unify(&iden.arrow().source, &a, "type of iden").map_err(|e| format!("build:{e}"))?;
+            let mut prog = iden.clone();
+            for _ in 0..depth {
+                prog = std::sync::Arc::<simplicity::ConstructNode>::comp(&prog, &iden).map_err(|e| format!("build:{e}"))?;
+            }
+            prog.finalize_unpruned().map_err(|e| format!("build:{e}"))
+        })?;
+        let b = red.bounds();
+        let (s, t) = (red.arrow().source.bit_width(), red.arrow().target.bit_width());
+        let accepted = BitMachine::for_program(&red).is_ok();
+        Ok::<_, String>((accepted, s, t, b.extra_cells, b.extra_frames))
+    });
+    match res {
+        Ok(Ok((accepted, s, t, cells, frames))) => {
+            ctx.case(Some(&line));
+            ctx.count(if accepted { "reach:near-limit-accepted" } else { "reach:near-limit-refused" });
+            let within = s as u128 + t as u128 + cells as u128 <= 2147483647 && frames as u128 + 2 <= 1048576;
+            if !within && accepted {
+                ctx.fail("limit-not-enforced", &line, &format!("for_program accepts source {s} + target {t} + extra_cells {cells} cells, extra_frames {frames}"));
+            }
+            if within && !accepted {
+                ctx.fail("limit-refuses-small", &line, &format!("for_program refuses source {s} + target {t} + extra_cells {cells} cells, extra_frames {frames}"));
+            }
+        }
+        Ok(Err(_)) => ctx.count("limits:build-failed"),
+        Err(p) => ctx.fail("panic-limits", &line, &p),
+    }
+}
+
 /// `comp (pair (injl|injr unit) unit) (case A B)` where one branch needs many cells and few frames
 /// (a wide `comp`) and the other no cells and many frames (a chain of zero-width `comp`s), in both
 /// branch orders and with both selections: case branches of unequal, *incomparable* cost
@@ -93,6 +133,10 @@ fn incomparable_case(ctx: &mut Ctx, word_n: u32, depth: usize, wide_left: bool, 
 }
 
 pub fn run(ctx: &mut Ctx) {
+    // around the hard cell limit: every part within it, the sum on both sides of it
+    for (n, depth) in [(29usize, 1usize), (29, 2), (28, 5), (28, 6), (28, 7), (30, 0), (30, 1), (27, 13), (27, 14), (31, 0), (26, 29), (26, 30), (20, 2044), (20, 2046), (20, 2047)] {
+        near_limit_case(ctx, n, depth);
+    }
     for word_n in [3u32, 6] {
         for depth in [2usize, 5, 9] {
             for wide_left in [false, true] {
@@ -109,6 +153,19 @@ pub fn run(ctx: &mut Ctx) {
 }
 
 pub fn replay(ctx: &mut Ctx, case: &str) {
+    let toks: Vec<&str> = case.split_whitespace().collect();
+    if let ["nearlimit", n, d] = toks.as_slice() {
+        if let (Ok(n), Ok(d)) = (n.parse(), d.parse()) {
+            near_limit_case(ctx, n, d);
+        }
+        return;
+    }
+    if let ["limits", n, d] = toks.as_slice() {
+        if let (Ok(n), Ok(d)) = (n.parse(), d.parse()) {
+            limit_case(ctx, n, d);
+        }
+        return;
+    }
     if let Some(c) = crate::props::c05::parse_case(case) {
         crate::props::c05::one(ctx, &c, true);
     }
